@@ -468,3 +468,54 @@ Proof. intros HI Hm Hpr Ha Hvs Hsv. unfold macro_p. rewrite Hpr, Ha, parse_opts_
     unfold view. cbn. rewrite Ep, Hvs. reflexivity.
 Qed.
 End P.
+
+(* the paragraph break at the start of macroP, for any arguments *)
+Definition p_break (s1 : st) : st :=
+  if par s1 then
+    let s' := process_paragraph (close_spanning s1) in
+    if scope_verse s' && verse s' then end_stanza s' else end_paragraph PNormal s'
+  else (end_paragraph PForced s1) <| par := false |>.
+Lemma Inv_p_break s : Inv s -> markup_ok (mtags s) -> verse s = false -> scope_verse s = false ->
+  Inv (p_break s) /\ view (p_break s) = (sblock s, dtags s, ttitscope s, (false, false, sinline s, mtags s)).
+Proof. intros HI Hm Hvs Hsv. unfold p_break.
+  pose proof (inv_fmt _ HI) as Hf.
+  destruct (par s) eqn:Ep.
+  - unfold close_spanning.
+    destruct (close_fold (mtags s) (rev (sinline s)) Hm s Hf eq_refl) as [c [Ec Hc]]. rewrite Ec.
+    assert (Hpc : par (wl c s) = true) by (rewrite par_wl; exact Ep).
+    set (s1 := process_paragraph (wl c s)).
+    assert (Hsv1 : scope_verse s1 = false).
+    { unfold scope_verse. change (sblock s1) with (let '(sb, _, _, _) := view (wl c s) in sb). rewrite view_wl. exact Hsv. }
+    cbv zeta. rewrite Hsv1. cbn [andb]. unfold end_paragraph.
+    assert (Hf1 : fmt s1 = FX) by (change (fmt s1) with (fmt (wl c s)); rewrite fmt_wl; exact Hf). rewrite Hf1. unfold X.end_paragraph.
+    assert (Hp1 : par s1 = false) by reflexivity.
+    assert (Hw : w (R "</p>" ++ NLs) s1 = s1 <| wout ::= cons (R "</p>" ++ NLs) |>) by (unfold w; rewrite Hp1; reflexivity). rewrite Hw.
+    assert (Ev2 : view (s1 <| wout ::= cons (R "</p>" ++ NLs) |>) = (sblock s, dtags s, ttitscope s, (false, false, sinline s, mtags s))).
+    { unfold view. cbn. unfold s1, process_paragraph, wo. cbn.
+      change (sblock (wl c s)) with (let '(sb, _, _, _) := view (wl c s) in sb).
+      change (dtags (wl c s)) with (let '(_, dt, _, _) := view (wl c s) in dt).
+      change (ttitscope (wl c s)) with (let '(_, _, t3, _) := view (wl c s) in t3).
+      change (verse (wl c s)) with (let '(_, _, _, (_, v, _, _)) := view (wl c s) in v).
+      change (sinline (wl c s)) with (let '(_, _, _, (_, _, si, _)) := view (wl c s) in si).
+      change (mtags (wl c s)) with (let '(_, _, _, (_, _, _, mt)) := view (wl c s) in mt).
+      rewrite view_wl. unfold view. rewrite Hvs. reflexivity. }
+    split; [|exact Ev2].
+    apply (Inv_step s _ (flat c ++ R "</p>" ++ NLs) HI).
+    + unfold out. cbn [wout buf]. unfold s1, process_paragraph, format_paragraph. rewrite fmt_wl, Hf. unfold X.format_paragraph, wo. cbn.
+      rewrite !flat_cons, flat_nil, app_nil_r. change (flat (wout (wl c s)) ++ flat (buf (wl c s))) with (out (wl c s)).
+      rewrite out_wl by (rewrite Ep; discriminate). unfold out. rewrite <- !app_assoc. reflexivity.
+    + unfold elems at 2. rewrite Ev2. unfold elems, view, elems_v. rewrite Ep, Hvs. cbn [app]. rewrite app_nil_r.
+      rewrite run_app. rewrite rev_app_distr, rev_cons1, <- app_assoc. unfold ielems at 1. rewrite <- map_rev. fold (ielems (mtags s) (rev (sinline s))).
+      rewrite Hc. reflexivity.
+    + reflexivity.
+    + exact Hf1.
+  - unfold end_paragraph. rewrite Hf. unfold X.end_paragraph.
+    assert (Ev : view (s <| par := false |>) = (sblock s, dtags s, ttitscope s, (false, false, sinline s, mtags s))) by (unfold view; cbn; rewrite Hvs; reflexivity).
+    split; [|exact Ev].
+    apply (Inv_regs0 s); try reflexivity; [|exact HI].
+    rewrite Ev. unfold view. rewrite Ep, Hvs. reflexivity.
+Qed.
+Lemma run_ptitle t : (forall stk, run t (Txt, stk) = (Txt, stk)) ->
+  forall stk, run (R "<p class=""paragraph""><strong class=""paragraph"">" ++ t ++ R "</strong>" ++ NLs) (Txt, stk) = (Txt, R "p" :: stk).
+Proof. intros Ht stk. rewrite run_app. change (run (R "<p class=""paragraph""><strong class=""paragraph"">") (Txt, stk)) with (Txt, R "strong" :: R "p" :: stk).
+  rewrite run_app, Ht. reflexivity. Qed.
